@@ -50,7 +50,8 @@ impl AdjustedStringRemoval {
         let ksmax = 4. * (self.cavg as Float) / (1. + lsmax) - 1.;
 
         // Equation 7: number of string to be removed
-        let ks = random.uniform_real(1., ksmax + 1.).floor() as usize;
+        // NOTE: with small cavg and long tours there is no room for more than one string
+        let ks = if ksmax > 0. { random.uniform_real(1., ksmax + 1.).floor() as usize } else { 1 };
 
         (lsmax as usize, ks)
     }
